@@ -417,6 +417,7 @@ def decode_describe(out):
             u["importref"] = hx(u.get("importref", ""))
             u["refs"] = [hx(r) for r in u["refs"]]
             u["dangling"] = [hx(r) for r in u.get("dangling", [])]
+        obj["imports"] = [[hx(x) for x in t] for t in obj.get("imports", [])]
         obj["math"] = [hx(m) for m in obj.get("math", [])]
         obj["vars"] = [[[hx(n), hx(v)] for n, v in c] for c in obj.get("vars", [])]
         models.append(obj)
@@ -490,6 +491,11 @@ def classify(mode, d, bang, stage, models, verdicts):
     if ((v.startswith("CRASH") and kind == "stack-overflow") or v.startswith("TIMEOUT")) and stage in ("F", "FR", "FV", "FA", "FGc", "FGp") \
             and import_capture_cycle([m for m in mine if not m["label"].endswith("lib")], [m for m in models if m["label"].endswith("lib")]):
         return "C01-K3-cycle-made-by-flattening", "stage %s: stack exhaustion (%s): flattening renames an imported units to a name its definition refers to" % (stage, top)
+    # validator.cpp handleErrorsFromImports packs (name; reference; url) between '&' markers into issue descriptions and
+    # splits them again: a name / reference / url that contains '&' or ';' makes it read ss[1], ss[2] out of bounds
+    if v.startswith("CRASH") and "handleErrorsFromImports" in frames \
+            and any(("&" in x or ";" in x) for m in models for t in m.get("imports", []) for x in t):
+        return "C01-Kvalidator-import-marker", "stage %s: %s in handleErrorsFromImports: an imported entity's name/reference/url contains '&' or ';'" % (stage, kind)
     # a units whose <unit> references a name that is neither standard nor defined: referencedUnits(model, nullptr)
     if v.startswith("CRASH") and kind.startswith(NULL_KINDS) and "referencedUnits" in frames \
             and any(u["dangling"] for m in mine for u in m.get("units", [])):
